@@ -39,6 +39,16 @@ pub uninterp spec fn spec_parse_request(line: Seq<char>) -> Result<Request, Serd
 #[verifier::external_body] pub fn parse_request(line: &str) -> (r: Result<Request, SerdeErr>) ensures r == spec_parse_request(line@) { unimplemented!() }
 // ErrorObject::new(code, impl Into<String>)  (message text dropped, R2)
 #[verifier::external_body] pub fn error_object_new(code: i32) -> (r: ErrorObject) ensures r.code == code { unimplemented!() }
+// String methods that panic off a UTF-8 character boundary (or past the end): the boundary condition is a precondition (panic model); whether a
+// byte offset is a boundary stays uninterpreted, so only an offset the code has CHECKED (is_char_boundary) or 0 / len can be proved safe
+pub uninterp spec fn spec_is_char_boundary(s: Seq<char>, n: usize) -> bool;
+#[verifier::external_body] pub fn string_is_char_boundary(s: &String, n: usize) -> (r: bool) ensures r == spec_is_char_boundary(s@, n) { s.is_char_boundary(n) }
+#[verifier::external_body] pub fn string_truncate(s: &mut String, n: usize)
+    requires spec_is_char_boundary(old(s)@, n),  // @panic-model String::truncate
+{ s.truncate(n) }
+#[verifier::external_body] pub fn string_split_off(s: &mut String, n: usize) -> (r: String)
+    requires spec_is_char_boundary(old(s)@, n),  // @panic-model String::split_off
+{ s.split_off(n) }
 // string equality / JSON parameter access / JSON construction
 #[verifier::external_body] pub fn str_eq(a: &str, b: &str) -> (r: bool) ensures r == (a@ == b@) { a == b }
 #[verifier::external_body] pub fn string_as_str<'a>(s: &'a String) -> (r: &'a str) ensures r@ == s@ { s.as_str() }
@@ -284,6 +294,14 @@ def build():
     u.add(u.consts(CT, names=['PARSE_ERROR', 'INVALID_REQUEST', 'METHOD_NOT_FOUND', 'INVALID_PARAMS', 'INTERNAL_ERROR']))
     u.add("pub const JSONRPC_VERSION: &'static str = \"2.0\";\n")
     u.const_names.add('JSONRPC_VERSION')
+    # serde is trusted (parsing a line into a Request is an uninterpreted function), so HOW the derive is configured is part of the trusted
+    # base: the attribute set of Request / Response / ErrorObject must be the audited one, otherwise nothing about parsing can be claimed
+    for ty, want in (('Request', ['#[derive(Debug, Deserialize)]', '#[serde(default)]', '#[serde(default)]']),):
+        raw, _ = u.raw(CT, 'struct', ty)
+        got = re.findall(r'#\[[^\]]*\]', raw)
+        if got != want:
+            from gen import LostAnchor
+            raise LostAnchor('audit of %s: derive / serde attributes changed (%s); the serde_json stub no longer describes how a line is parsed' % (ty, ' '.join(got)))
     u.add(u.item(CT, 'struct', 'Request', post=_noderive))
     u.add(u.item(CT, 'struct', 'Response', post=_noderive))
     u.add(u.item(CT, 'struct', 'ErrorObject', post=_noderive))
@@ -307,10 +325,17 @@ def build():
         u.fn(CF, 'set_stall_deselect', impl='DynamicConfig', post_rewrite=[(_setter, None, 1)], ensures=[
             C('C18.ctl.config.set_stall_deselect.visible_in_the_next_snapshot', 'final(self).view_snapshot().stall_deselect == enabled'), SAME('stall_deselect')]),
         u.fn(CF, 'set_conn_timeout_ms', impl='DynamicConfig', ret='r', post_rewrite=[(_setter, None, 1)], ensures=[
-            C('C18.ctl.config.set_conn_timeout.clamped_to_1000_60000_and_echoed_as_applied', 'r == clamp_timeout(ms) && final(self).conn_timeout_ms.v == r'),
+            C('C08+C18.ctl.config.set_conn_timeout.clamped_to_1000_60000_and_echoed_as_applied', 'r == clamp_timeout(ms) && final(self).conn_timeout_ms.v == r'),
             C('C18.ctl.config.set_conn_timeout.keeps_timeout_in_range', 'final(self).wf()'), SAME('conn_timeout_ms')]),
     ]))
 
+    u.add(impl_block('ErrorObject', [
+        u.fn(CT, 'new', impl='ErrorObject', ret='r', props=('C18',),
+             post_rewrite=[('message: impl Into<String>', 'message: String', 1), (re.compile(r'\bmessage\.into\(\)'), 'message', None),
+                           (re.compile(r'\b(\w+)\.truncate\('), r'string_truncate(&mut \1, ', None), (re.compile(r'\b(\w+)\.split_off\('), r'string_split_off(&mut \1, ', None),
+                           (re.compile(r'\b(\w+)\.is_char_boundary\('), r'string_is_char_boundary(&\1, ', None)],
+             ensures=[C('C18.ctl.error_object.new_keeps_the_code', 'r.code == code && r.data is None')]),
+    ]))
     u.add(impl_block('Response', [
         u.fn(CT, 'ok', impl='Response', ret='r', post_rewrite=[('Value::Null', 'value_null()', None)], ensures=[C('C18.ctl.response.ok_has_result_and_no_error', 'r.id == id && r.result == Some(result) && r.error is None')]),
         u.fn(CT, 'err', impl='Response', ret='r', post_rewrite=[('Value::Null', 'value_null()', None)], ensures=[C('C18.ctl.response.err_has_error_and_no_result', 'r.id == id && r.result is None && r.error == Some(err)')]),
